@@ -31,20 +31,25 @@ type ProbeConfig struct {
 	// FieldDirective: the schema additionally declares an executable directive on FIELD,
 	// which routes every generated field through _fieldMiddleware.
 	FieldDirective bool
+	// SplitSchema: the schema is spread over two files (directives, scalars and root types
+	// in one, everything else in the other): under follow-schema each file is rendered
+	// from its own template data.
+	SplitSchema bool
 	// Exec overrides the exec: section; Extra is appended at top level of gqlgen.yml.
 	Exec  string
 	Extra string
 }
 
 var (
-	CfgDefault      = ProbeConfig{Name: "default"}
-	CfgFollowSchema = ProbeConfig{Name: "follow-schema", Exec: "exec:\n  layout: follow-schema\n  dir: graph\n  package: graph\n"}
-	CfgFuncSyntax   = ProbeConfig{Name: "function-syntax", Extra: "use_function_syntax_for_execution_context: true\n"}
-	CfgWorker1      = ProbeConfig{Name: "worker-limit-1", Exec: "exec:\n  filename: graph/generated.go\n  package: graph\n  worker_limit: 1\n"}
-	CfgWorker2      = ProbeConfig{Name: "worker-limit-2", Exec: "exec:\n  filename: graph/generated.go\n  package: graph\n  worker_limit: 2\n"}
-	CfgRenamedRoots = ProbeConfig{Name: "renamed-roots", RenameRoots: true}
-	CfgFieldDir     = ProbeConfig{Name: "field-directive", FieldDirective: true}
-	CfgWorker8      = ProbeConfig{Name: "worker-limit-8", Exec: "exec:\n  filename: graph/generated.go\n  package: graph\n  worker_limit: 8\n"}
+	CfgDefault       = ProbeConfig{Name: "default"}
+	CfgFollowSchema  = ProbeConfig{Name: "follow-schema", Exec: "exec:\n  layout: follow-schema\n  dir: graph\n  package: graph\n"}
+	CfgFuncSyntax    = ProbeConfig{Name: "function-syntax", Extra: "use_function_syntax_for_execution_context: true\n"}
+	CfgWorker1       = ProbeConfig{Name: "worker-limit-1", Exec: "exec:\n  filename: graph/generated.go\n  package: graph\n  worker_limit: 1\n"}
+	CfgWorker2       = ProbeConfig{Name: "worker-limit-2", Exec: "exec:\n  filename: graph/generated.go\n  package: graph\n  worker_limit: 2\n"}
+	CfgRenamedRoots  = ProbeConfig{Name: "renamed-roots", RenameRoots: true}
+	CfgFieldDir      = ProbeConfig{Name: "field-directive", FieldDirective: true}
+	CfgSplitFieldDir = ProbeConfig{Name: "follow-schema-split-field-directive", FieldDirective: true, SplitSchema: true, Exec: "exec:\n  layout: follow-schema\n  dir: graph\n  package: graph\n"}
+	CfgWorker8       = ProbeConfig{Name: "worker-limit-8", Exec: "exec:\n  filename: graph/generated.go\n  package: graph\n  worker_limit: 8\n"}
 )
 
 // ForShapes returns the configurations renamed for the shapes probe ("shapes.<name>").
@@ -84,15 +89,52 @@ func (pc ProbeConfig) yaml(probeName string) string {
 	if ex == "" {
 		ex = "exec:\n  filename: graph/generated.go\n  package: graph\n"
 	}
-	return "schema:\n  - schema.graphql\n" + ex + "model:\n  filename: graph/models_gen.go\n  package: graph\n" + probeModels[probeName] + pc.Extra
+	schema := "schema:\n  - schema.graphql\n"
+	if pc.SplitSchema {
+		schema = "schema:\n  - roots.graphql\n  - types.graphql\n"
+	}
+	return schema + ex + "model:\n  filename: graph/models_gen.go\n  package: graph\n" + probeModels[probeName] + pc.Extra
 }
 
 type Built struct {
 	Cfg   ProbeConfig
 	Probe string
-	Dir string
-	Bin string
-	Err error
+	Dir   string
+	Bin   string
+	Err   error
+}
+
+// splitSchema separates an SDL text (one definition per line or brace block, as the probes
+// are written) into (directive / scalar / enum declarations and the root operation types)
+// and (everything else).
+func splitSchema(sdl string) (roots, types string) {
+	var cur strings.Builder
+	depth := 0
+	flush := func() {
+		def := cur.String()
+		cur.Reset()
+		t := strings.TrimSpace(def)
+		if t == "" {
+			return
+		}
+		isRoot := strings.HasPrefix(t, "directive ") || strings.HasPrefix(t, "scalar ") || strings.HasPrefix(t, "schema ") ||
+			strings.HasPrefix(t, "type Query") || strings.HasPrefix(t, "type Mutation") || strings.HasPrefix(t, "type Subscription") ||
+			strings.HasPrefix(t, "type Root") || strings.HasPrefix(t, "type Commands")
+		if isRoot {
+			roots += def
+		} else {
+			types += def
+		}
+	}
+	for _, line := range strings.SplitAfter(sdl, "\n") {
+		cur.WriteString(line)
+		depth += strings.Count(line, "{") - strings.Count(line, "}")
+		if depth == 0 {
+			flush()
+		}
+	}
+	flush()
+	return roots, types
 }
 
 // BuildAll generates + instruments + builds the harness for every configuration, in parallel.
@@ -121,13 +163,18 @@ func BuildAll(probeName string, cfgs []ProbeConfig) []Built {
 			files["harness/main.go"] = string(tmpl)
 			if pc.FieldDirective {
 				files["schema.graphql"] = "directive @fq(tag: String) on FIELD\n" + files["schema.graphql"]
-				files["harness/main.go"] = strings.Replace(files["harness/main.go"], "// FIELD-DIRECTIVE-HOOK", "Fq: func(ctx context.Context, obj any, next graphql.Resolver, tag *string) (any, error) { return next(ctx) },", 1)
+				files["harness/main.go"] = strings.Replace(files["harness/main.go"], "// FIELD-DIRECTIVE-HOOK", "Fq: func(ctx context.Context, obj any, next graphql.Resolver, tag *string) (any, error) { return cur().QueryDirective(ctx, next) },", 1)
 			}
 			if pc.RenameRoots {
 				sdl := files["schema.graphql"]
 				sdl = strings.Replace(sdl, "type Mutation {", "type Commands {", 1)
 				sdl = strings.Replace(sdl, "type Query {", "type Root {", 1)
 				files["schema.graphql"] = "schema { query: Root mutation: Commands subscription: Subscription }\n" + sdl
+			}
+			if pc.SplitSchema {
+				roots, types := splitSchema(files["schema.graphql"])
+				delete(files, "schema.graphql")
+				files["roots.graphql"], files["types.graphql"] = roots, types
 			}
 			res, err := probe.Generate(probe.Spec{Name: probeName + "-" + pc.Name, Files: files, Stub: "graph/stub.go"})
 			b := Built{Cfg: pc, Dir: res.Dir, Probe: probeName}
